@@ -266,6 +266,8 @@ def standin_pauli_sums(tier, seed):
         if not isinstance(ps, cirq.PauliSum):
             ps = cirq.PauliSum.from_pauli_strings([ps])
         own = list(ps.qubits)
+        if not own:
+            continue  # everything cancelled
         cases += 1
         if not np.allclose(ps.matrix(own), _sum_matrix(terms, own), atol=1e-9):
             bad("PauliSum.matrix differs from the sum of Kronecker products", terms=terms)
